@@ -1,20 +1,22 @@
 // Command tsoglobal ties the C05 model to the code:
-//  A. pure functions: CalSuffixBits, differentiateLogical (exhaustive / random inputs)
-//  B. suffix assignment: several AllocatorManagers with real members on one embedded etcd; the PD
-//     leadership moves between them; ClusterDCLocationChecker runs whole or parked before its create
-//     transaction
-//  C. the synchronisation protocol: one in-process PD server with local TSO enabled, leading the global
-//     allocator and the local allocators of two dc-locations (SyncMaxTS goes over real gRPC to itself),
-//     with a frozen injected clock: sequential local/global requests and SetTSO are compared exactly with
-//     the model, concurrent bursts are judged by the monitor.
+//
+//	A. pure functions: CalSuffixBits, differentiateLogical (exhaustive / random inputs)
+//	B. suffix assignment: several AllocatorManagers with real members on one embedded etcd; the PD
+//	   leadership moves between them; ClusterDCLocationChecker runs whole or parked before its create
+//	   transaction
+//	C. the synchronisation protocol: one in-process PD server with local TSO enabled, leading the global
+//	   allocator and the local allocators of two dc-locations (SyncMaxTS goes over real gRPC to itself),
+//	   with a frozen injected clock: sequential local/global requests and SetTSO are compared exactly with
+//	   the model, concurrent bursts are judged by the monitor.
+//
 // Must be built with the clock overlay.
 package main
 
 import (
-	"github.com/pingcap/kvproto/pkg/pdpb"
 	"context"
 	"flag"
 	"fmt"
+	"github.com/pingcap/kvproto/pkg/pdpb"
 	"os"
 	"path"
 	"sort"
@@ -102,7 +104,7 @@ func (w *sworld) table() string {
 	var rows []string
 	for _, kv := range resp.Kvs {
 		k := strings.Split(string(kv.Key), "/")
-		rows = append(rows, fmt.Sprintf("%s=%s", strings.TrimPrefix(k[len(k)-1], "dc"), string(kv.Value)))
+		rows = append(rows, fmt.Sprintf("%d=%s", sfxDCNum(k[len(k)-1]), string(kv.Value)))
 	}
 	sort.Slice(rows, func(i, j int) bool {
 		a, _ := strconv.Atoi(strings.Split(rows[i], "=")[0])
@@ -112,6 +114,24 @@ func (w *sworld) table() string {
 	return "[" + strings.Join(rows, ",") + "]"
 }
 
+// dc numbers of part B and their names: n < 20 is "dc<n>"; 20+n is "x-dc<n>", a name whose tail is the name of dc n
+func sfxDCName(n int) string {
+	if n >= 20 {
+		return fmt.Sprintf("x-dc%d", n-20)
+	}
+	return fmt.Sprintf("dc%d", n)
+}
+
+func sfxDCNum(name string) int {
+	n := 0
+	if strings.HasPrefix(name, "x-dc") {
+		fmt.Sscanf(name, "x-dc%d", &n)
+		return n + 20
+	}
+	fmt.Sscanf(name, "dc%d", &n)
+	return n
+}
+
 func (w *sworld) exec(f []string) string {
 	atoi := func(s string) int { n, _ := strconv.Atoi(s); return n }
 	switch {
@@ -119,7 +139,7 @@ func (w *sworld) exec(f []string) string {
 		w.reset()
 		return "ok"
 	case f[0] == "dcjoin" && len(f) == 3: // server id, dc
-		_, err := w.e.Client.Put(context.Background(), path.Join(w.root, "dc-location", f[1]), "dc"+f[2])
+		_, err := w.e.Client.Put(context.Background(), path.Join(w.root, "dc-location", f[1]), sfxDCName(atoi(f[2])))
 		if err != nil {
 			panic(err)
 		}
@@ -301,11 +321,11 @@ func dcName(s string) string {
 }
 
 type grant struct {
-	alloc                int
-	ms, logical          int64
-	bits                 uint32
-	start, finish        int64
-	err                  string
+	alloc         int
+	ms, logical   int64
+	bits          uint32
+	start, finish int64
+	err           string
 }
 
 func (w *pworld) request(alloc int, count uint32) grant {
@@ -373,6 +393,20 @@ func (w *pworld) exec(f []string) string {
 			a, _ := am.GetAllocator(dc)
 			_, l, _ := tso.VerifView(a)
 			if l > 20000 {
+				busy = true
+			}
+		}
+		{
+			// memories far ahead of the (frozen) clock – after allocators were pushed ahead on purpose – make later
+			// synchronisations hit the reset gap: let the clock catch up
+			maxP := int64(0)
+			for _, dc := range append([]string{tso.GlobalDCLocation}, w.dcs...) {
+				a, _ := am.GetAllocator(dc)
+				if p, _, _ := tso.VerifView(a); p > maxP {
+					maxP = p
+				}
+			}
+			if maxP-atomic.LoadInt64(&w.now) > 3600e9 {
 				busy = true
 			}
 		}
@@ -490,6 +524,12 @@ func (w *pworld) exec(f []string) string {
 			}
 			time.Sleep(50 * time.Millisecond)
 		}
+	case f[0] == "reqfail" && len(f) == 3: // like req, for a request that is expected to be refused
+		g := w.request(int(atoi(f[1])), uint32(atoi(f[2])))
+		if g.err != "" {
+			return "err"
+		}
+		return fmt.Sprintf("ts %d %d %d", g.ms, g.logical, g.bits)
 	case f[0] == "req" && len(f) == 3: // allocator (0 global / dc number), count
 		g := w.request(int(atoi(f[1])), uint32(atoi(f[2])))
 		if g.err != "" {
@@ -610,7 +650,7 @@ func main() {
 			o = fmt.Sprintf("%d", tso.VerifDifferentiate(a, b, c))
 		case "sreset", "dcjoin", "dcleave", "slead", "checker", "gchecker", "sfinish":
 			o = sw.exec(f) + " " + sw.table()
-		case "pinit", "req", "setts", "burst", "bigreq", "lrestart", "joinlate", "rawtso":
+		case "pinit", "req", "reqfail", "setts", "burst", "bigreq", "lrestart", "joinlate", "rawtso":
 			p := getPW()
 			o = p.exec(f)
 			if f[0] != "burst" && f[0] != "bigreq" && f[0] != "joinlate" {
